@@ -34,12 +34,25 @@ def _case(draw, tier):
     n = draw(st.integers(4, 30 if tier == "quick" else 60))
     open_ = [False] * NCONN
     ops = []
+    closed_one = False
     for _ in range(n):
         i = draw(_ci)
         if not open_[i]:
             kind = draw(st.sampled_from(["begin", "begin", "begin", "write", "select", "commit", "rollback", "fail"]))
         else:
-            kind = draw(st.sampled_from(["write", "write", "write", "select", "select", "fail", "commit", "rollback", "begin"]))
+            kind = draw(st.sampled_from(["write", "write", "write", "many", "select", "select", "fail", "commit", "rollback", "begin", "close-rarely"]))
+        if kind == "close-rarely":
+            # a connection closed with its transaction still open (at most one per history, and not often)
+            if closed_one or draw(st.integers(0, 2)):
+                kind = "write"
+            else:
+                closed_one = True
+                ops.append(["close", i])
+                open_[i] = False
+                continue
+        if kind == "many":
+            ops.append(["insert_many", i, draw(_cu), draw(st.lists(_slot, min_size=1, max_size=3, unique=True)), draw(st.integers(0, 99))])
+            continue
         if kind == "begin":
             ops.append(["begin", i])
             open_[i] = True
@@ -84,6 +97,7 @@ def run_tx(case, ctx: Ctx) -> None:
         pending: list[dict | None] = [None] * NCONN
         begin_idx: list[list[int] | None] = [None] * NCONN
         wrote_in_tx = [False] * NCONN
+        closed = [False] * NCONN
         overlap_seen = third_party_between = False
         first_commit_of_overlap = False
 
@@ -131,7 +145,49 @@ def run_tx(case, ctx: Ctx) -> None:
             if not isinstance(i, int) or not 0 <= i < NCONN:
                 raise InvalidCase()
             label = repr(op)
-            if kind == "begin":
+            if closed[i]:
+                continue
+            if kind == "close":
+                was_open = pending[i] is not None
+                try:
+                    conns[i].close()
+                except Exception as e:
+                    ctx.fail(f"C13|close|raises|{type(e).__name__}", str(e))
+                    return
+                closed[i] = True
+                # never committed, so never visible
+                pending[i] = None
+                begin_idx[i] = None
+                ctx.cls("close-with-open-transaction" if was_open else "close")
+                for r in range(NCONN):
+                    if not closed[r]:
+                        check_read(r, 0, label + f" then conn {r} reads")
+            elif kind == "insert_many":
+                cu, slots, val = op[2], op[3], op[4]
+                if not isinstance(slots, list) or not slots or any(not isinstance(x, int) or not 0 <= x <= 2 for x in slots) or len(set(slots)) != len(slots):
+                    raise InvalidCase()
+                v = dict(view_own(i))
+                keys = [sl * NCONN + i for sl in slots if sl * NCONN + i not in v]
+                if not keys:
+                    continue
+                try:
+                    curs[i][cu].executemany("INSERT INTO SH VALUES (%s, %s, %s)", [(k_, int(val), i) for k_ in keys])
+                except Exception as e:
+                    ctx.fail(f"C13|executemany|raises|{type(e).__name__}|{'in-tx' if pending[i] is not None else 'autocommit'}", f"{label}: {e}")
+                    return
+                for k_ in keys:
+                    v[k_] = int(val)
+                if pending[i] is not None:
+                    pending[i] = v
+                    wrote_in_tx[i] = True
+                    ctx.cls("executemany-in-transaction")
+                else:
+                    hist[i].append(v)
+                # a batch is DML like any other: it neither ends nor escapes the open transaction
+                for r in range(NCONN):
+                    if not closed[r]:
+                        check_read(r, 0, label + f" then conn {r} reads")
+            elif kind == "begin":
                 if pending[i] is not None:
                     continue  # BEGIN only when none is open (input domain)
                 o = run(curs[i][0], "BEGIN")
@@ -229,7 +285,8 @@ def run_tx(case, ctx: Ctx) -> None:
                     begin_idx[i] = None
                 # everyone looks after every commit/rollback
                 for r in range(NCONN):
-                    check_read(r, 0, label + f" then conn {r} reads")
+                    if not closed[r]:
+                        check_read(r, 0, label + f" then conn {r} reads")
             else:
                 raise InvalidCase()
         ctx.nontrivial = overlap_seen and third_party_between
@@ -247,7 +304,8 @@ PROP = Prop(
             rule=(
                 "Hypothesis draws histories of 4-30/60 statements over 3 connections x 2 cursors of one instance: BEGIN (only when none is "
                 "open), INSERT/UPDATE/DELETE of the connection's own keys (k mod 3), failing statements, SELECTs, COMMIT/ROLLBACK as SQL or "
-                "conn.commit()/rollback() with or without an open transaction. The single-threaded driver makes the history a statement-level "
+                "conn.commit()/rollback() with or without an open transaction, executemany batches, and (rarely) a connection closed with its "
+                "transaction still open. The single-threaded driver makes the history a statement-level "
                 "interleaving. Oracle: committed store + per-connection pending set; a reader sees its own pending writes, and of every other "
                 "connection exactly one of the states that connection had committed (the latest if the reader is outside a transaction; any "
                 "since its BEGIN otherwise) - never uncommitted or partial. Non-trivial: two transactions with writes overlap and a third "
